@@ -90,6 +90,70 @@ Definition json_decode (j : str) : res str :=
       end
   | [] => Err EStd
   end.
+(* ---- the same decoder WITH JSON escapes (RFC 8259 section 7; what serde-json-wasm hands to the visitor is the
+   unescaped string): backslash followed by a double quote, a backslash, a slash, one of b f n r t, or by u and four hex digits.  A code point below
+   128 is its byte; any other code point (and each half of a surrogate pair) is represented by the byte 255 - it is
+   some non-ASCII text, which no numeral contains, so every such document is refused by the numeral parsers whatever
+   the exact UTF-8 bytes (or the decoder's own refusal of a lone surrogate) would have been.  A raw double quote or a
+   raw control byte inside the body, a backslash at the end, an unknown escape letter or fewer than four hex digits make
+   the document malformed. *)
+Definition hexv (b : N) : option N :=
+  if (48 <=? b) && (b <=? 57) then Some (b - 48)
+  else if (97 <=? b) && (b <=? 102) then Some (b - 87)
+  else if (65 <=? b) && (b <=? 70) then Some (b - 55)
+  else None.
+Definition simple_escape (e : N) : option N :=
+  if e =? QUOTE then Some QUOTE else if e =? BACKSLASH then Some BACKSLASH else if e =? 47 then Some 47
+  else if e =? 98 then Some 8 else if e =? 102 then Some 12 else if e =? 110 then Some 10
+  else if e =? 114 then Some 13 else if e =? 116 then Some 9 else None.
+Definition code_point_byte (cp : N) : N := if cp <? 128 then cp else 255.
+Fixpoint unescape (s : str) : res str :=
+  match s with
+  | [] => Ok []
+  | c :: rest =>
+      if c =? BACKSLASH then
+        match rest with
+        | [] => Err EStd
+        | e :: rest1 =>
+            if e =? 117 then
+              match rest1 with
+              | h1 :: h2 :: h3 :: h4 :: rest2 =>
+                  match hexv h1, hexv h2, hexv h3, hexv h4 with
+                  | Some a, Some b, Some c', Some d =>
+                      match unescape rest2 with
+                      | Ok t => Ok (code_point_byte (((a * 16 + b) * 16 + c') * 16 + d) :: t)
+                      | Err x => Err x
+                      end
+                  | _, _, _, _ => Err EStd
+                  end
+              | _ => Err EStd
+              end
+            else
+              match simple_escape e with
+              | Some b => match unescape rest1 with Ok t => Ok (b :: t) | Err x => Err x end
+              | None => Err EStd
+              end
+        end
+      else if (c =? QUOTE) || (c <? 32) then Err EStd
+      else match unescape rest with Ok t => Ok (c :: t) | Err x => Err x end
+  end.
+Definition json_decode_esc (j : str) : res str :=
+  match j with
+  | q :: rest =>
+      match rev rest with
+      | q' :: body_rev => if (q =? QUOTE) && (q' =? QUOTE) then unescape (rev body_rev) else Err EStd
+      | [] => Err EStd
+      end
+  | [] => Err EStd
+  end.
+Definition uint_of_json_esc (j : str) : res N := let* s := json_decode_esc j in from_dec_str s.
+Definition dec_of_json_esc (j : str) : res N := let* s := json_decode_esc j in dec_from_str s.
+(* one byte spelled as the escape \u00XY *)
+Definition hexdigit (k : N) : N := if k <? 10 then 48 + k else 87 + k.
+Definition esc_byte (b : N) : str := [BACKSLASH; 117; 48; 48; hexdigit (b / 16); hexdigit (b mod 16)].
+(* a spelling of a text: every byte written plainly or as an escape *)
+Definition spell (l : list (N * bool)) : str := flat_map (fun be : N * bool => if snd be then esc_byte (fst be) else [fst be]) l.
+
 Definition uint_to_json (n : N) : str := json_encode (render n).
 Definition uint_of_json (j : str) : res N := let* s := json_decode j in from_dec_str s.
 Definition dec_to_json (v : N) : str := json_encode (dec_render v).
